@@ -440,6 +440,9 @@ impl Hook for H {
         e.aborting = true;
         return true;
       }
+      if !e.aborting {
+        capture_image(&e);
+      }
       false
     });
     if bad {
@@ -978,6 +981,43 @@ struct GenPool {
 
 thread_local! {
   static POOL: RefCell<GenPool> = RefCell::new(GenPool { gens: vec![] });
+}
+
+/// one distinct memory image seen at a scheduling point, with the ranges that were live (returned to a thread
+/// and not yet given back) at that moment: what the file would hold had the process been killed there
+pub struct CrashImg {
+  pub img: Vec<u8>,
+  pub lives: Vec<(Meta4, u8)>,
+  pub sched: Vec<u8>,
+  pub event: u64,
+}
+
+#[derive(Default)]
+pub struct ImgState {
+  pub seen: std::collections::HashSet<u64>,
+  pub out: Vec<CrashImg>,
+}
+
+thread_local! {
+  /// Some(..) while crash images are being collected on this OS thread (C06, concurrent part)
+  pub static IMG: RefCell<Option<ImgState>> = const { RefCell::new(None) };
+}
+
+fn capture_image(e: &Eng) {
+  IMG.with(|i| {
+    let mut i = i.borrow_mut();
+    let Some(st) = i.as_mut() else { return };
+    if e.torn_down {
+      return;
+    }
+    let mem = unsafe { std::slice::from_raw_parts(e.rg.base as *const u8, e.rg.cap) };
+    let mut lives: Vec<(Meta4, u8)> = e.live.iter().map(|l| (l.m, l.pat)).collect();
+    lives.sort();
+    let k = hash_of(&(mem, &lives));
+    if st.seen.insert(k) {
+      st.out.push(CrashImg { img: mem.to_vec(), lives, sched: e.choices.iter().map(|c| c.chosen).collect(), event: e.events });
+    }
+  });
 }
 
 pub fn run_one(h: &Harness, prefix: &[u8], o: &ExecOpts) -> ExecOut {
